@@ -135,6 +135,15 @@ def gen_csv_file(rnd, label):
     return '\n'.join(rows) + '\n'
 
 
+def insert_rule(text, var_line, rule_text):
+    """put a top-level assignment at the very top and a rule in front of the first [header] (top-level lines are
+    only legal before the first rule)"""
+    lines = text.split('\n')
+    cut = next((j for j, l in enumerate(lines) if l.startswith('[')), len(lines))
+    head = ([var_line] if var_line else []) + lines[:cut]
+    return '\n'.join(head + rule_text.rstrip('\n').split('\n') + [''] + lines[cut:])
+
+
 DESCS = ['UBER TRIP 123', 'UBER EATS', 'AMZN5 MKTP', 'AMZNX MKTP', 'AMZN MKTP US', 'APLPAY COSTCO WHSE', 'COSTCO GAS',
          'NETFLIX.COM', 'SHOP 42', 'SHOPX', 'uber trip', 'Coffee Bar', 'AMZN', 'COSTCO7 UBER']
 
@@ -175,7 +184,7 @@ def gen_universe(rnd, uid):
         if not files['A']['text'].startswith('big ='):
             files['A']['text'] = 'big = amount > 10\n' + files['A']['text']
         body = '\n'.join(l for l in files[other]['text'].split('\n') if not l.startswith('big ='))
-        files[other]['text'] = f'[{other}v {k.title()}]\nmatch: big and contains("{k}")\ncategory: Var-{other}\n\n' + body
+        files[other]['text'] = insert_rule(body, '', f'[{other}v {k.title()}]\nmatch: big and contains("{k}")\ncategory: Var-{other}\n')
         leak = other
     # top-level variables that read data only SOME transactions have (a captured field; a supplemental row with
     # the same amount) and rules that use them: evaluating the variable raises for the other transactions, which
@@ -190,8 +199,8 @@ def gen_universe(rnd, uid):
                 ('top_item = [r.item for r in orders if r.amount == amount][0]', f'top_item == "Book" and contains("{k}")'),
                 ('is_low = field.kind == "ach"', f'is_low and contains("{k}")'),
             ])
-            files[name]['text'] = (var + '\n' + f'[{name}p {k.title()}]\nmatch: {rule}\ncategory: Partial-{name}\n'
-                                   + rnd.choice(['', 'tags: partial\n']) + '\n' + files[name]['text'])
+            files[name]['text'] = insert_rule(files[name]['text'], var, f'[{name}p {k.title()}]\nmatch: {rule}\n'
+                                              f'category: Partial-{name}\n' + rnd.choice(['', 'tags: partial\n']))
             partial.append(name)
     pool = [e for tpl in match_templates(k, rnd.choice(TOKENS)) for e in tpl if e]
     exprs = rnd.sample(pool, 4) + rnd.sample(
@@ -686,8 +695,16 @@ def main(tier):
         'MODELLED: _cached_engine writes/reads of get_all_rules / normalize_merchant, lookup-else-compute-and-store of both caches, '
         'the caller holding the last returned rules, one long-lived MerchantEngine re-parsed',
         'EXTRACTED from source every run (tools/c07_cache_keys.py, fail closed): dict names, every syntactic use of the two caches, '
-        'key = bare argument, stored value = parse+validate / re.compile(key, constant flags), parse() resets, every writer/reader '
+        'key = bare argument, stored value = parse+validate / re.compile(key, constant flags), parse() resets, the shape of the '
+        'show-once load-error report, every writer/reader '
         'of _cached_engine, and that get_all_rules resets it on entry (c07_history_independent_of_source type-checks only then)',
+        'OUTSIDE THE PROPERTY (explicit): the stderr line `Error loading rules from <path>: ...` that get_all_rules / get_transforms / '
+        'get_tag_only_rules print for an unparsable .rules file is shown once per distinct (path, message) per process '
+        '(merchant_utils._reported_load_errors) and is therefore history dependent by design; it is not a classification result, is not '
+        'compared, and is not in the model state. What IS checked (Gen/C07CacheKeys.v + c07_load_error_report_as_modelled): that set is '
+        'tested/added-to only inside _report_rules_load_error, which returns nothing, prints to sys.stderr only, and is called only as an '
+        'expression statement in except handlers - so it cannot reach any compared output; the differential runs cover loads of the same '
+        'unparsable file repeated in one process',
         'cached ASTs / compiled patterns are treated as immutable values; cache keys are str; file content does not change '
         'between a load and the classifications that use it; set/dict order, object identities and message texts are not compared',
     ]
@@ -708,6 +725,12 @@ def main(tier):
         broken.append({'kind': 'hygiene', 'detail': res['hygiene']})
     facts = c07_cache_keys.generate(SRC)[1]
     fx = bool(facts and facts['cached']['resets'])
+    if facts is None:       # extraction failed: keep the variant of the last successful extraction for the correspondence
+        try:
+            fx = 'get_all_rules_resets_cached_engine : bool := true' in open(
+                os.path.join(COQ, 'theories', 'Gen', 'C07CacheKeys.v')).read()
+        except OSError:
+            pass
     if facts and not fx:
         broken[:] = [b for b in broken if b.get('obligation') != 'c07_history_independent_of_source']
         broken.insert(0, {'kind': 'broken-obligation', 'obligation': 'c07_history_independent_of_source',
@@ -750,6 +773,15 @@ def main(tier):
                 failing.setdefault(sig, []).append((ui, hi, pos))
 
     phases['oracle_s'] = round(time.time() - t1, 1)
+    # generator health: the intended-good .rules file must really build an engine, the others must not
+    kinds = {}
+    for ui, u in enumerate(unis):
+        for name in u['files']:
+            key = f"{name}{u['files'][name]['suffix']}:{'engine' if builds_engine(freshes[ui], name) else 'no-engine'}"
+            kinds[key] = kinds.get(key, 0) + 1
+    if kinds.get('A.rules:engine', 0) * 10 < len(unis) * 6:
+        broken.append({'kind': 'broken-correspondence', 'obligation': 'generator: file A is a .rules file that loads',
+                       'detail': kinds})
     t1 = time.time()
     # determinism of the reference itself: a sample of fresh results re-run
     det_bad = 0
@@ -836,7 +868,7 @@ def main(tier):
         'fresh_interpreters_spawned': spawned, 'history_length_histogram': hist_len, 'loads_per_history_histogram': nloads,
         'model_vs_impl_histories_in_coq': model_n, 'model_variant': 'reset at entry (as /repo since e98b1f7)' if fx else 'NO reset (regression to before e98b1f7)',
         'failing_signatures': {k: len(v) for k, v in failing.items()}, 'translation_failures': tfails,
-        'discards': discards, 'phase_seconds': phases,
+        'discards': discards, 'phase_seconds': phases, 'files_by_load_outcome': kinds,
         'claimed_for_this_tree': ['c07_history_independent_fixed', 'c07_history_independent_of_source',
                                   'c07_expr_cache_transparent', 'c07_regex_cache_transparent', 'c07_cache_invariant',
                                   'c07_outputs_cache_free', 'c07_classify_frame', 'c07_history_independent_partial'],
